@@ -110,13 +110,13 @@ PROPS = {
             "relevant_probes": ["p_steal_hit", "p_block", "p_entry_child_first", "p_entry_parent_first", "p_finish_waiter", "p_finish_next", "p_finish_sched"],
             "rule": "each evaluation is one simulated execution of 2..12 probe threads that run 3..40 switching operations each (5 yield flavours, child-first and attribute creation, blocking and non-blocking join, contended mutex, usleep, barrier, cond-based barrier, uncond hand-off) through an assembly stub that loads patterns into rbx, rbp, r12-r15 and a 256 B..4 KiB stack array and compares afterwards; every simulator hook additionally asserts a 16-byte aligned frame; non-trivial = a cross-worker preemption happened and at least one probe operation resumed on another worker; distinct = distinct event signatures"},
     "C18": {"engine": "drsim",
-            "jobs": [{"bin": "drsim", "cls": "dr", "sets": {}, "flavour": "O2", "weight": 6, "chunk": 300, "shrink": {"ntasks": 1, "nworkers": 1, "policy": 0, "zero_pm": 0, "lenclass": 0, "nfiles": 1, "nsettings": 2}},
+            "jobs": [{"bin": "drsim", "cls": "dr", "sets": {}, "flavour": "O2", "weight": 6, "chunk": 300, "shrink": {"ntasks": 1, "nworkers": 1, "policy": 0, "zero_pm": 0, "lenclass": 0, "nfiles": 1, "nsettings": 2, "wide": 0}},
                      {"bin": "drsim", "cls": "dr", "sets": {}, "flavour": "asan", "weight": 2, "chunk": 100}],
             "rule": "each evaluation is one generated task-parallel program (1..400 tasks; task ::= section* end, section ::= (section|create)* wait, 'other' intervals anywhere; interval lengths 0..10^6 incl. zero-length) executed by a virtual greedy work-stealing scheduler (1..8 virtual workers, work-first or help-first, seeded steals) and RECORDED 2..6 times with identical virtual timing under different contraction options; non-trivial = at least one task or continuation migrated between virtual workers; distinct = distinct signatures of (work, critical path, materialised node count) over the recordings",
             "components": {"real": "all of /repo/src/profiler: dag_recorder_inl.h (instrumentation, accumulation, contraction), dag_recorder.c, dr_dump.c, read_dag.c, gen_stat.c, gen_text.c, chronological.c", "stubbed": "the tasking runtime (virtual work-stealing scheduler with a discrete-event virtual clock); dr_get_tsc returns the acting virtual worker's time"},
             "assumptions": ["the recorder is driven through its public dr_*__ entry points with explicit worker ids (worker_specific_state_array=1)", "internal dr_check assertions are left at their default level (off)"]},
     "C19": {"engine": "drsim",
-            "jobs": [{"bin": "drsim", "cls": "dr", "sets": {}, "flavour": "O2", "weight": 6, "chunk": 300, "shrink": {"ntasks": 1, "nworkers": 1, "policy": 0, "zero_pm": 0, "lenclass": 0, "nfiles": 1, "nsettings": 2}},
+            "jobs": [{"bin": "drsim", "cls": "dr", "sets": {}, "flavour": "O2", "weight": 6, "chunk": 300, "shrink": {"ntasks": 1, "nworkers": 1, "policy": 0, "zero_pm": 0, "lenclass": 0, "nfiles": 1, "nsettings": 2, "wide": 0}},
                      {"bin": "drsim", "cls": "dr", "sets": {"nfiles": 50}, "flavour": "O2", "weight": 1, "chunk": 300},
                      {"bin": "drsim", "cls": "dr", "sets": {}, "flavour": "asan", "weight": 2, "chunk": 100}],
             "rule": "same executions as C18: every recording is dumped (dr_dump), read back (dr_read_dag), validated structurally, replayed chronologically, re-dumped (byte-identical apart from two in-memory pointers in the string-table header), and shrunk with dr_copy_pi_dag under a seeded node target; non-trivial / distinct as for C18",
